@@ -13,7 +13,7 @@ func template(r *vh.RNG) *Scenario {
 		scn.Mailbox = "GlobalOrderedLockFree"
 	}
 	tell := func(t, n int) Label { return Label{K: "tell", T: t, N: n} }
-	switch r.Intn(6) {
+	switch r.Intn(7) {
 	case 0:
 		// all-for-one: the root restarts ALL its children when A (token 1) fails; B (token 2) is healthy, has a child
 		// (token 3) and traffic in flight while it waits for that child during its restart
@@ -68,6 +68,19 @@ func template(r *vh.RNG) *Scenario {
 		if r.Bool() {
 			scn.Exts[2] = Label{K: "term", T: 1, G: false} // the child goes first, the parent is still alive
 		}
+	case 6:
+		// the fresh instance of a restarted actor reports a failure (without panicking) from its own start handlers while
+		// user messages are queued: it must stay suspended until the supervisor's second decision
+		on := "L"
+		if r.Bool() {
+			on = "RD"
+		}
+		scn.Roles = []Role{
+			{Victim: "resume", Sup: []string{"restart", dirs3[r.Intn(3)]}, Rules: []Rule{{On: "L", N: -1, Inst: -1, Do: []Action{{K: "spawn", T: 1, R: 1}}}}},
+			{Rules: []Rule{{On: "P", N: 0, Inst: 0, Do: []Action{{K: "panic"}}}, {On: on, N: -1, Inst: 1, Do: []Action{{K: "report"}}},
+				{On: "P", N: 1, Inst: -1, Do: []Action{{K: "tell", T: 0, N: 2}}}}},
+		}
+		scn.Exts = []Label{{K: "spawn", T: 0, R: 0}, tell(1, 1), tell(1, 0), tell(1, 1), tell(1, 2), tell(1, 1), tell(0, 1)}
 	default:
 		// watch requests racing with a termination: two observers, one of them the parent
 		scn.Roles = []Role{
@@ -259,24 +272,24 @@ func Generate(r *vh.RNG) *Scenario {
 			scn.Exts = append(scn.Exts, Label{K: "term", T: anyTok(), G: calm || r.Bool()})
 		case 9:
 			if calm {
-		scn.Final = true
-		for i := range scn.Roles {
-			for j := range scn.Roles[i].Rules {
-				var keep []Action
-				for _, a := range scn.Roles[i].Rules[j].Do {
-					if a.K == "panic" || a.K == "report" {
-						continue
+				scn.Final = true
+				for i := range scn.Roles {
+					for j := range scn.Roles[i].Rules {
+						var keep []Action
+						for _, a := range scn.Roles[i].Rules[j].Do {
+							if a.K == "panic" || a.K == "report" {
+								continue
+							}
+							if a.K == "term" {
+								a.G = true
+							}
+							keep = append(keep, a)
+						}
+						scn.Roles[i].Rules[j].Do = keep
 					}
-					if a.K == "term" {
-						a.G = true
-					}
-					keep = append(keep, a)
 				}
-				scn.Roles[i].Rules[j].Do = keep
 			}
-		}
-	}
-	scn.Exts = append(scn.Exts, Label{K: "spawn", T: 0, R: 0})
+			scn.Exts = append(scn.Exts, Label{K: "spawn", T: 0, R: 0})
 		}
 	}
 	return scn
